@@ -31,6 +31,15 @@ def evaluate(ck, c, stream, want_native=True):
     if S.front_rejected(c):
         res['status'] = 'rejected'
         return res
+    if c.r_rc < 0 and c.r_rc != -9:
+        # nanoc itself was killed (stack overflow of the evaluator, ...): nothing is compiled
+        res['status'] = 'crash'
+        if c.ref_a['cls'] == 'exit':
+            res['ref'] = ['nanoc is killed by signal %d at compile time (stderr tail %r); the reference semantics runs the same statements to completion'
+                          % (-c.r_rc, c.r_stderr[-160:])]
+        if c.m_interp['cls'] == 'done':
+            res['tie'] = ['real nanoc killed by signal %d, model outcome done' % -c.r_rc]
+        return res
     if c.r_rc == -9:
         # nanoc did not terminate: the evaluator loops (the model must say so: out of fuel)
         res['status'] = 'hang'
@@ -73,6 +82,12 @@ def evaluate(ck, c, stream, want_native=True):
     else:
         res['ref_unavailable'] = c.ref_a['cls']
     res['tie'] = S.cmp_model(c)
+    # the evaluator reports a division by zero on stderr and goes on with void: if the reference run is clean, an operand was
+    # evaluated that the language does not evaluate
+    import re as _re
+    m = _re.search(r'^Error: (Division|Modulo) by zero', c.r_stderr, _re.M)
+    if m and c.ref_a['cls'] == 'exit':
+        res['ref'].append('the evaluator reports "%s" at compile time; the reference semantics never divides by zero in this program' % m.group(0))
     # the theorem's instance on this case, evaluated on the extracted definitions: names_apart and the reference is
     # defined on a test  =>  model text == reference text, model passes iff reference passes
     if c.m_apart and c.m_reft is not None and c.m_interp['cls'] == 'done':
@@ -91,8 +106,8 @@ def record(ck, c, res, stream):
     """turn the comparison results of one case into ck.fail calls; returns True when the implementation diverged"""
     key0 = c.id if stream == 'witness' else 'c03:%s' % c.id
     diverged = bool(res['native'] or res['ref'])
-    nontrivial = any(t[1] for t in S.real_tests(c)) or any(t[2] == 'FAILED' for t in S.real_tests(c)) or res['status'] == 'hang'
-    ck.count(c.s_src, nontrivial and res['status'] in ('ok', 'hang'))
+    nontrivial = any(t[1] for t in S.real_tests(c)) or any(t[2] == 'FAILED' for t in S.real_tests(c)) or res['status'] in ('hang', 'crash')
+    ck.count(c.s_src, nontrivial and res['status'] in ('ok', 'hang', 'crash'))
     ck.extra['status'][res['status']] += 1
     if res['status'] == 'rejected':
         return False
@@ -180,6 +195,20 @@ def run(ck):
         record(ck, c, r, 'gen')
         if r['status'] != 'ok' or not c.m_apart:
             ck.fail('c03:%s:family-not-run' % c.id, 'control-flag family program: status %s, names_apart %s' % (r['status'], c.m_apart), S.replay_dict(c), tie=True)
+    # deterministic family "operand evaluation": and / or (right operand only when needed: printing, guarded recursion, operands that
+    # would stop the program), binary operands / call arguments / array elements / cond tests in order
+    ofam = S.order_family(openk)
+    S.run_models(nv3, nvl, ofam)
+    S.run_real(b, [c for c in ofam if not c.native_exempt], 'c03o')
+    S.run_real(b, [c for c in ofam if c.native_exempt], 'c03p', want_native=False)
+    ck.extra['operand_evaluation_family'] = dict(programs=len(ofam), constructs=sum(len(c.order_labels) for c in ofam),
+                                                 native_exempt=[c.id for c in ofam if c.native_exempt],
+                                                 labels=sorted(l for c in ofam for l in c.order_labels.values())[:200])
+    for c in ofam:
+        r = evaluate(ck, c, 'gen', want_native=not c.native_exempt)
+        record(ck, c, r, 'gen')
+        if r['status'] not in ('ok',) and not (r['native'] or r['ref']):
+            ck.fail('c03:%s:family-not-run' % c.id, 'operand-evaluation family program: status %s' % r['status'], S.replay_dict(c), tie=True)
     # 2. main stream: nothing that triggers an open finding; the theorem's hypothesis holds
     cfg = S.stream_cfg(openk)
     n = 400 if ck.thorough else 36
